@@ -8,8 +8,10 @@ import (
 	"fmt"
 	"reflect"
 	"sort"
+	"sync"
 	"sync/atomic"
 	"time"
+	"unsafe"
 )
 
 // ---------------------------------------------------------------------------------
@@ -285,4 +287,168 @@ func Yield(site int) {
 		sch.current.Steps++
 	}
 	sch.yield(site)
+}
+
+// ---------------------------------------------------------------------------------
+// cooperative synchronisation (C14 builds): a lock held by a descheduled task must not
+// block the baton holder for real, and the race rules need to see lock ownership.
+
+// SyncHook is told about every acquire/release so that the scheduler can close the
+// current fingerprint segment. kind: "acquire" | "release" | "atomic".
+var SyncHook func(kind string, addr uintptr)
+
+type lockState struct {
+	owner   int // task id, -1 free
+	readers map[int]int
+}
+
+var locks = map[uintptr]*lockState{}
+var onces = map[uintptr]int{} // 0 not run, 1 running, 2 done
+var atomicAddrs = map[uintptr]bool{}
+
+func ResetSync() {
+	locks = map[uintptr]*lockState{}
+	onces = map[uintptr]int{}
+	atomicAddrs = map[uintptr]bool{}
+}
+
+func AtomicAddrs() map[uintptr]bool { return atomicAddrs }
+
+func taskID() int {
+	if ts := currentTask(); ts != nil {
+		return ts.ID
+	}
+	return 0
+}
+
+// HeldLocks returns the addresses of the locks the current task holds.
+func HeldLocks() []uintptr {
+	id := taskID()
+	var out []uintptr
+	for a, l := range locks {
+		if l.owner == id || l.readers[id] > 0 {
+			out = append(out, a)
+		}
+	}
+	sort.Slice(out, func(i, j int) bool { return out[i] < out[j] })
+	return out
+}
+
+func lockOf(addr uintptr) *lockState {
+	l := locks[addr]
+	if l == nil {
+		l = &lockState{owner: -1, readers: map[int]int{}}
+		locks[addr] = l
+	}
+	return l
+}
+
+func hook(kind string, addr uintptr) {
+	if SyncHook != nil {
+		SyncHook(kind, addr)
+	}
+}
+
+func MutexLock(m *sync.Mutex) {
+	if !sch.attached.Load() {
+		m.Lock()
+		return
+	}
+	addr := uintptr(unsafe.Pointer(m))
+	l := lockOf(addr)
+	for l.owner != -1 {
+		Yield(-1)
+	}
+	l.owner = taskID()
+	hook("acquire", addr)
+}
+
+func MutexUnlock(m *sync.Mutex) {
+	if !sch.attached.Load() {
+		m.Unlock()
+		return
+	}
+	addr := uintptr(unsafe.Pointer(m))
+	hook("release", addr)
+	lockOf(addr).owner = -1
+}
+
+func RWLock(m *sync.RWMutex) {
+	if !sch.attached.Load() {
+		m.Lock()
+		return
+	}
+	addr := uintptr(unsafe.Pointer(m))
+	l := lockOf(addr)
+	for l.owner != -1 || len(l.readers) > 0 {
+		Yield(-1)
+	}
+	l.owner = taskID()
+	hook("acquire", addr)
+}
+
+func RWUnlock(m *sync.RWMutex) {
+	if !sch.attached.Load() {
+		m.Unlock()
+		return
+	}
+	addr := uintptr(unsafe.Pointer(m))
+	hook("release", addr)
+	lockOf(addr).owner = -1
+}
+
+func RWRLock(m *sync.RWMutex) {
+	if !sch.attached.Load() {
+		m.RLock()
+		return
+	}
+	addr := uintptr(unsafe.Pointer(m))
+	l := lockOf(addr)
+	for l.owner != -1 {
+		Yield(-1)
+	}
+	l.readers[taskID()]++
+	hook("acquire", addr)
+}
+
+func RWRUnlock(m *sync.RWMutex) {
+	if !sch.attached.Load() {
+		m.RUnlock()
+		return
+	}
+	addr := uintptr(unsafe.Pointer(m))
+	hook("release", addr)
+	l := lockOf(addr)
+	id := taskID()
+	if l.readers[id]--; l.readers[id] <= 0 {
+		delete(l.readers, id)
+	}
+}
+
+func OnceDo(o *sync.Once, f func()) {
+	if !sch.attached.Load() {
+		o.Do(f)
+		return
+	}
+	addr := uintptr(unsafe.Pointer(o))
+	for onces[addr] == 1 {
+		Yield(-1)
+	}
+	if onces[addr] == 2 {
+		hook("acquire", addr)
+		return
+	}
+	onces[addr] = 1
+	f()
+	hook("release", addr)
+	onces[addr] = 2
+}
+
+// AtomicAddr marks the address as accessed atomically and returns it unchanged.
+func AtomicAddr[P any](p *P) *P {
+	if sch.attached.Load() {
+		atomicAddrs[uintptr(unsafe.Pointer(p))] = true
+		hook("atomic", uintptr(unsafe.Pointer(p)))
+	}
+	return p
 }
